@@ -129,6 +129,9 @@ template <class D> typename D::Scalar maxabs(const Eigen::MatrixBase<D>& m0) {
   return r;
 }
 
+// NaN-safe running maximum: std::max(d, NaN) returns d
+template <class A, class Bx> inline A accmax(A d, Bx x) { if (!(x == x)) return std::numeric_limits<A>::infinity(); return ((A)x > d) ? (A)x : d; }
+
 // deviation of the rotation coefficients' norm from one, max over blocks
 template <class G> ref::Real norm_dev(const G& x) {
   const ref::Group& g = RG<typename G::LieGroup>();
